@@ -21,7 +21,10 @@ Faults == { [n |-> "fail", e |-> Call("fail", <<IntL(1)>>)],
             [n |-> "nofunc", e |-> Call("nosuch", <<IntL(1)>>)],
             [n |-> "range", e |-> Idx(Id("xs"), IntL(5))],
             \* a (value, error) helper that fails, its result used through a member path
-            [n |-> "failchain", e |-> Par(Dot(Call("failrec", <<IntL(1)>>), "Name"))] }
+            [n |-> "failchain", e |-> Par(Dot(Call("failrec", <<IntL(1)>>), "Name"))],
+            \* a (value, error) METHOD of a context value that fails, alone and followed by a member path
+            [n |-> "failmeth", e |-> Par(MCall(Id("obj"), "Fail"))],
+            [n |-> "failmethchain", e |-> Par(Dot(MCall(Id("obj"), "Fail"), "Name"))] }
 
 BinOps == {"+", "-", "*", "/", "<", "<=", ">", ">=", "==", "!=", "~=", "&&", "||"}
 
@@ -87,7 +90,7 @@ WrapS(c, e) ==
                                       l |-> <<Text(<<"[">>), Emit(Id("yield")), Text(<<"]">>)>>]]
     [] c = "partialdata" -> [prog |-> <<Emit(Call("partial", <<Str(<<"p">>), Hash(<<"a">>, <<e>>)>>))>>, parts |-> [p |-> <<Text(<<"a">>)>>]]
 
-Data == [xs |-> A(<<I(1), I(2)>>)]
+Data == [xs |-> A(<<I(1), I(2)>>), obj |-> RecM([Name |-> S(<<"n">>)], [Fail |-> [t |-> "failv"]])]
 Preamble == <<Text(<<"b","e","f","o","r","e">>), Let("f", FnLit(<<"q">>, <<Ret(Id("q"))>>))>>
 
 VARIABLES fault, ecs, sc, res
@@ -106,7 +109,7 @@ BlockECs == {"cond", "elifcond", "iter"}
 \* `for (v) in !f(x) { ...` hands the loop's block to the call f(x): only a call that is the whole
 \* iterable may be followed by the loop body
 RECURSIVE EndsInCall(_)
-EndsInCall(cs) == IF cs = <<>> THEN fault.n \in {"fail", "nofunc", "failchain"}
+EndsInCall(cs) == IF cs = <<>> THEN fault.n \in {"fail", "nofunc", "failchain", "failmeth", "failmethchain"}
                   ELSE IF Head(cs).k = "not" THEN EndsInCall(Tail(cs))
                   ELSE Head(cs).k \in {"argGo", "argP", "argUser", "argVar0", "argVar1"}
 IterOK(cs) == IF cs = <<>> THEN TRUE ELSE IF Head(cs).k = "not" THEN ~EndsInCall(cs) ELSE TRUE
